@@ -6,57 +6,86 @@ ASSUMPTIONS = [
     'scheduleBulk(count, gen), wait()); like the real sets it evaluates gen(i) once for every i in [0,count) inside '
     'scheduleBulk and either runs the closure inline or queues it; queued closures run in any order, at any later mock '
     'entry point (pool of >= 1 thread) or inside wait()',
-    'task-granularity interleaving: a closure runs to completion once started (thorough tier: one other stored closure may '
-    'run between two element applications); data races inside a closure are not explored',
+    'task-granularity interleaving: a closure runs to completion once started (thorough tier, *_deep instances: one other '
+    'stored closure may run between two element applications); data races inside a closure are not explored',
 ]
 OUTSIDE = ('n > 6 (quick) / 8 (thorough); pools of more than 2 (quick) / 3 (thorough) threads; maxThreads other than '
-           '{0,1,2,INT32_MAX,UINT32_MAX} except in the *_anymt instances (any uint32_t, n <= 4); the overloads without a task '
-           'set argument (they construct a real TaskSet on the global pool and forward to the checked overload with '
-           'wait=true); functors that throw; nested for_each calls from inside the functor')
+           '{0,1,2,INT32_MAX,UINT32_MAX} except in the thorough *_anymt instances (any uint32_t, n <= 3); the overloads '
+           'without a task set argument (they construct a real TaskSet on the global pool and forward to the checked '
+           'overload with wait=true); functors that throw; nested for_each calls from inside the functor')
 
 _CHECKS = ['--div-by-zero-check', '--pointer-check', '--bounds-check']
 _ITN = {0: 'pointer (random-access) iterators', 1: 'harness forward iterator', 2: 'harness bidirectional iterator',
         3: 'harness random-access iterator class'}
+_SCHED = ('each chunk task inline or stored, stored tasks run in any order at the start of later schedule() calls (pool >= 1 '
+          'thread) or in wait() (task-granularity interleaving)')
 
 
-def _inst(name, it, entry, rv=0, stateful=0, tiers=('quick', 'thorough'), q=None, t=None, what='', unwind=9, tunwind=11):
+def _inst(name, it, entry, rv=0, stateful=0, tiers=('quick', 'thorough'), q=None, t=None, what='', must=True):
     d = {'VF_ITER': it, 'VF_ENTRY': entry, 'VF_RVALUE': rv, 'VF_STATEFUL': stateful}
-    qd = dict(d, VF_MAXN=6, VF_NPOOL=2, VF_MAXTASKS=3, VF_DEEP=0)
+    qd = dict(d, VF_MAXN=6, VF_MAXTASKS=3, VF_DEEP=0)
     qd.update(q or {})
-    td = dict(d, VF_MAXN=8, VF_NPOOL=3, VF_MAXTASKS=4, VF_DEEP=0)
-    td.update(t or q or {})
-    return {
+    td = dict(d, VF_MAXN=8, VF_MAXTASKS=4, VF_DEEP=0)
+    td.update(t if t is not None else (q or {}))
+    r = {
         'name': name, 'src': 'foreach.cpp', 'engine': 'cbmc', 'defs': qd, 'tiers': list(tiers),
         'repo_sources': ['dispenso/detail/per_thread_info.cpp'],
-        'unwind': unwind, 'timeout': 400, 'checks': _CHECKS, 'object_bits': 13, 'must_reach': 'all',
+        'unwind': 9, 'timeout': 900, 'checks': _CHECKS, 'object_bits': 13,
         'bounds': '%s, %s, functor passed as %s%s; %s' % (
             'for_each(first,last)' if entry else 'for_each_n', _ITN[it], 'rvalue' if rv else 'lvalue',
             ' (stateful: pointer capture)' if stateful else '', what),
-        'thorough': {'defs': td, 'unwind': tunwind, 'timeout': 1700},
+        'thorough': {'defs': td, 'unwind': 11, 'timeout': 1700},
     }
+    if must:
+        r['must_reach'] = 'all'
+    if it in (1, 2):
+        # SmallVector<Iter,64>'s inline buffer (a byte array inside a union): element-wise SSA symbols, so that the
+        # boundary iterators stored in it stay constants for the symbolic executor
+        r['fs_array'] = 512
+    return r
 
 
-_FULL = ('every combination of n 0..6 of 8 elements (thorough 0..8 of 10), pool size 0..2 (thorough 0..3), maxThreads in '
-         '{0,1,2,INT32_MAX,UINT32_MAX}, wait true/false, caller outside / already inside a parallel-for chunk of the same pool; '
-         'each chunk task inline or stored, stored tasks run in any order at the start of later schedule() calls (pool >= 1 '
-         'thread) or in wait() (task-granularity interleaving)')
-_ZP = ('only zero-thread pool, wait=false, n 1..6 (thorough 1..8), maxThreads in {1,2,INT32_MAX,UINT32_MAX}; the one chunk inline '
-       'or stored until wait()')
-_ZPD = {'VF_MTNZ': 1, 'VF_MINN': 1, 'VF_NPOOL': 0, 'VF_WAITSEL': 0, 'VF_RECUR': 0}
-_ANY = ('every combination of n 0..4, pool size 0..2 (thorough 0..3), wait true/false with maxThreads any uint32_t '
-        '(symbolic); scheduling as above')
-_ANYD = {'VF_ANYMT': 1, 'VF_MAXN': 4, 'VF_RECUR': 0}
+def _pool(prefix, it, entry, rv, p, tiers=('quick', 'thorough'), stateful=0, extra=None, what2=''):
+    what = ('every combination of pool size %d, n 0..6 of 8 elements (thorough 0..8 of 10), maxThreads in '
+            '{0,1,2,INT32_MAX,UINT32_MAX}, wait true/false%s; %s' % (p, what2, _SCHED))
+    q = {'VF_NPOOL_LO': p, 'VF_NPOOL': p}
+    q.update(extra or {})
+    return _inst('%s_p%d' % (prefix, p), it, entry, rv=rv, stateful=stateful, tiers=tiers, q=q, what=what, must=(p > 0))
 
-INSTANCES = [
-    _inst('ptr_n', 0, 0, rv=0, stateful=1, what=_FULL),
-    _inst('fwd_range', 1, 1, rv=1, what=_FULL),
-    _inst('bidi_n', 2, 0, rv=1, what=_FULL),
-    _inst('fwd_n', 1, 0, rv=0, what=_FULL, tiers=('thorough',)),
-    _inst('bidi_range', 2, 1, rv=0, what=_FULL, tiers=('thorough',)),
-    _inst('ptr_range', 0, 1, rv=1, what=_FULL, tiers=('thorough',)),
-    _inst('rand_n', 3, 0, rv=1, what=_FULL, tiers=('thorough',)),
-    _inst('zero_pool_nowait_ptr', 0, 0, q=_ZPD, t=dict(_ZPD, VF_MAXN=8), what=_ZP),
-    _inst('zero_pool_nowait_fwd', 1, 0, q=_ZPD, t=dict(_ZPD, VF_MAXN=8), what=_ZP),
-    _inst('ptr_anymt', 0, 0, q=_ANYD, t=dict(_ANYD, VF_NPOOL=3), what=_ANY),
-    _inst('fwd_anymt', 1, 0, q=_ANYD, t=dict(_ANYD, VF_NPOOL=3), what=_ANY),
-]
+
+_ZP = ('only zero-thread pool, wait=false, n 1..6 (thorough 1..8), maxThreads in {1,2,INT32_MAX,UINT32_MAX}; the one chunk '
+       'inline or stored until wait()')
+_ZPD = {'VF_MTNZ': 1, 'VF_MINN': 1, 'VF_NPOOL': 0, 'VF_WAITSEL': 0}
+_RC = ('caller already inside a parallel-for chunk of the same pool (PerPoolPerThreadInfo recursion level 1): pool size 1, '
+       'n 0..6 (thorough 0..8), maxThreads in {0,1,2,INT32_MAX,UINT32_MAX}, wait true/false')
+_RCD = {'VF_RECUR': 2, 'VF_NPOOL_LO': 1, 'VF_NPOOL': 1}
+_ANY = ('every combination of n 0..3, pool size 0..2, wait true/false with maxThreads any uint32_t (symbolic); ' + _SCHED)
+_ANYD = {'VF_ANYMT': 1, 'VF_MAXN': 3, 'VF_NPOOL': 2, 'VF_MAXTASKS': 3}
+_T = ('thorough',)
+
+INSTANCES = (
+    [_pool('ptr_n', 0, 0, 0, p) for p in (0, 1, 2)] +
+    [_pool('fwd_range', 1, 1, 1, p) for p in (0, 1, 2)] +
+    [_pool('bidi_n', 2, 0, 1, p) for p in (0, 1, 2)] +
+    [
+        _inst('zero_pool_nowait_ptr', 0, 0, q=_ZPD, what=_ZP, must=False),
+        _inst('zero_pool_nowait_fwd', 1, 0, q=_ZPD, what=_ZP, must=False),
+        _inst('ptr_recur', 0, 0, q=_RCD, what=_RC, must=False),
+        _inst('fwd_recur', 1, 1, rv=1, q=_RCD, what=_RC, must=False),
+    ] +
+    # thorough only: 3-thread pools, the other entry point per category, a random-access iterator class, a stateful
+    # functor, pick-ups in the middle of a chunk, symbolic maxThreads
+    [_pool('ptr_n', 0, 0, 0, 3, tiers=_T), _pool('fwd_range', 1, 1, 1, 3, tiers=_T), _pool('bidi_n', 2, 0, 1, 3, tiers=_T)] +
+    [_pool('fwd_n', 1, 0, 0, p, tiers=_T) for p in (1, 2)] +
+    [_pool('bidi_range', 2, 1, 0, p, tiers=_T) for p in (1, 2)] +
+    [_pool('ptr_range', 0, 1, 1, p, tiers=_T) for p in (1, 2)] +
+    [_pool('rand_n', 3, 0, 1, p, tiers=_T) for p in (1, 2)] +
+    [_pool('ptr_n_stateful', 0, 0, 0, 2, tiers=_T, stateful=1)] +
+    [_pool('ptr_n_deep', 0, 0, 0, p, tiers=_T, extra={'VF_DEEP': 1},
+           what2='; a pool thread may also run one stored chunk between two element applications of another chunk')
+     for p in (1, 2)] +
+    [_pool('fwd_range_deep', 1, 1, 1, 2, tiers=_T, extra={'VF_DEEP': 1},
+           what2='; a pool thread may also run one stored chunk between two element applications of another chunk')] +
+    [_inst('ptr_anymt', 0, 0, q=_ANYD, what=_ANY, tiers=_T, must=False),
+     _inst('fwd_anymt', 1, 0, q=_ANYD, what=_ANY, tiers=_T, must=False)]
+)
